@@ -162,6 +162,9 @@ type handler struct {
 	pendingMsg atomic.Pointer[announce.Announce]
 	// expires is the time the handler is removed if it remains idle.
 	expires time.Time
+	// users is the number of syncs and pending announcements that are using
+	// the handler. A handler in use is not idle. Protected by handlersMutex.
+	users int
 	// syncer is a sync client for this handler's peer.
 	syncer Syncer
 }
@@ -440,6 +443,7 @@ func (s *Subscriber) SyncAdChain(ctx context.Context, peerInfo peer.AddrInfo, op
 	log := log.With("peer", peerInfo.ID)
 
 	hnd := s.getOrCreateHandler(peerInfo.ID)
+	defer s.releaseHandler(hnd)
 
 	syncer, updatePeerstore, err := hnd.makeSyncer(peerInfo, true)
 	if err != nil {
@@ -592,6 +596,7 @@ func (s *Subscriber) syncEntries(ctx context.Context, peerInfo peer.AddrInfo, en
 	}
 
 	hnd := s.getOrCreateHandler(peerInfo.ID)
+	defer s.releaseHandler(hnd)
 
 	syncer, _, err := hnd.makeSyncer(peerInfo, false)
 	if err != nil {
@@ -673,27 +678,37 @@ func (s *Subscriber) distributeEvents() {
 }
 
 // getOrCreateHandler returns an existing handler or creates a new one for the
-// specified peer (publisher).
+// specified peer (publisher). The handler is in use, and so cannot be removed
+// as idle, until the caller gives it back by calling releaseHandler.
 func (s *Subscriber) getOrCreateHandler(peerID peer.ID) *handler {
-	expires := time.Now().Add(s.idleHandlerTTL)
-
 	s.handlersMutex.Lock()
 	defer s.handlersMutex.Unlock()
 
 	// Check for existing handler, return if found.
 	hnd, ok := s.handlers[peerID]
-	if ok {
-		hnd.expires = expires
-	} else {
+	if !ok {
 		hnd = &handler{
 			subscriber: s,
 			peerID:     peerID,
-			expires:    expires,
 		}
 		s.handlers[peerID] = hnd
 	}
+	hnd.users++
 
 	return hnd
+}
+
+// releaseHandler ends one use of a handler returned by getOrCreateHandler.
+// When no use is left the handler becomes idle, and is removed if it remains
+// idle for idleHandlerTTL.
+func (s *Subscriber) releaseHandler(hnd *handler) {
+	expires := time.Now().Add(s.idleHandlerTTL)
+
+	s.handlersMutex.Lock()
+	defer s.handlersMutex.Unlock()
+
+	hnd.users--
+	hnd.expires = expires
 }
 
 // idleHandlerCleaner periodically looks for idle handlers to remove. This
@@ -706,7 +721,7 @@ func (s *Subscriber) idleHandlerCleaner() {
 		case now := <-t.C:
 			s.handlersMutex.Lock()
 			for pid, hnd := range s.handlers {
-				if now.After(hnd.expires) {
+				if hnd.users == 0 && now.After(hnd.expires) {
 					delete(s.handlers, pid)
 					log.Debugw("Removed idle handler", "peer", pid)
 				}
@@ -751,6 +766,9 @@ func (s *Subscriber) watch() {
 		// existing request to sync the ad chain.
 		if oldMsg != nil {
 			log.Infow("Pending announce replaced by new", "previous_cid", oldMsg.Cid, "new_cid", amsg.Cid, "peer", hnd.peerID)
+			// The goroutine that is going to take the pending message is
+			// using the handler.
+			s.releaseHandler(hnd)
 			continue
 		}
 
@@ -758,6 +776,7 @@ func (s *Subscriber) watch() {
 		// Start a new goroutine to handle this message.
 		s.asyncWG.Add(1)
 		go func() {
+			defer s.releaseHandler(hnd)
 			// Wait for any previous asyncSyncAdChain to finish before removing the
 			// latest pending messaged and reducing the available items in the sync
 			// semaphore.
